@@ -27,6 +27,8 @@ type Case struct {
 	// History: documents validated on the same schema object before Doc (the verdict for Doc
 	// must not depend on them)
 	History []string `json:"history,omitempty"`
+	// DocUse: what the Document object itself was used for before the judged Validate (lib.ValidateUsed)
+	DocUse []string `json:"doc_use,omitempty"`
 }
 
 func init() {
@@ -58,7 +60,7 @@ func check(t run.TB, c Case) outcome {
 			run.Fail(t, chk, c, "panic while validating an earlier document: %v", r)
 		}
 	}
-	val := lib.Validate(s, []byte(c.Doc))
+	val := lib.ValidateUsed(s, []byte(c.Doc), c.DocUse)
 	if chkRes.Panic != "" || val.Panic != "" {
 		run.Fail(t, chk, c, "panic: check=%v validate=%v", chkRes, val)
 	}
@@ -76,6 +78,9 @@ func check(t run.TB, c Case) outcome {
 		after := ""
 		if len(c.History) > 0 {
 			after = fmt.Sprintf(" [after %d earlier Validate calls on the same schema object]", len(c.History))
+		}
+		if len(c.DocUse) > 0 {
+			after += fmt.Sprintf(" [the Document object had been used before: %v]", c.DocUse)
 		}
 		run.Fail(t, chk, c, "Validate=%v but the example's shape says accept=%v (first difference at depth %d)%s", val, want.OK, want.DiffDepth, after)
 	}
@@ -250,6 +255,19 @@ func TestShape(t *testing.T) {
 				run.Eval(chk, false)
 				run.Label("after-earlier-validations")
 			}
+			// ... and on a Document object that was read, measured, checked or validated before
+			var use []string
+			for i, n := 0, rapid.IntRange(1, 3).Draw(t, "nuse"); i < n; i++ {
+				u := rapid.SampledFrom([]string{"len", "check", "validate", "validate", "other", "next"}).Draw(t, "use")
+				if u == "next" {
+					u = fmt.Sprintf("next:%d", rapid.IntRange(1, 12).Draw(t, "nextK"))
+				}
+				use = append(use, u)
+			}
+			d := rapid.SampledFrom(docs).Draw(t, "usedDoc")
+			check(t, Case{Schema: schema, Model: model, Doc: d, KeysOptional: opt, DocUse: use})
+			run.Eval(chk, false)
+			run.Label("used-document-object")
 		}
 	})
 }
